@@ -1,11 +1,13 @@
 #!/venv/bin/python
-"""Same protocol as bin/mutants, but the scratch copy is taken from MUT_SRC (default /tmp/wt-c10, the worktree with
-the Circle fix) instead of /repo, so that a mutant is not 'caught' merely because of a defect of the pinned tree.
-usage: MUT_SRC=/tmp/wt-c10 MUT_PAR=2 MUT_NPROC=4 agent_reports/C10/mutants_wt.py C10 [name ...]"""
+"""Same protocol as bin/mutants (scratch copy of MUT_SRC, default /repo), but the check runs through
+agent_reports/C10/check_with_known.sh, i.e. with the two C10 known-finding entries (Circle half radius) registered, so
+that a mutant is not 'caught' merely because of the recorded finding of the pinned tree. Obsolete once the entries of
+agent_reports/C10/known_findings_entries.json are in /verif/known_findings.json (then: bin/mutants C10).
+usage: MUT_PAR=2 MUT_NPROC=4 agent_reports/C10/mutants_wt.py C10 [name ...]"""
 import json, os, shutil, subprocess, sys, tempfile, time
 from concurrent.futures import ThreadPoolExecutor
 HERE = "/verif"
-SRC = os.environ.get("MUT_SRC", "/tmp/wt-c10")
+SRC = os.environ.get("MUT_SRC", "/repo")
 prop = sys.argv[1].upper()
 only = set(sys.argv[2:])
 muts = json.load(open(os.path.join(HERE, "mutants", prop + ".json")))
@@ -25,7 +27,7 @@ def run(m):
         open(p, "w").write(s.replace(m["old"], m["new"]))
         t0 = time.time()
         env = dict(os.environ, VERIF_REPO=d, VERIF_NPROC=os.environ.get("MUT_NPROC", "4"))
-        r = subprocess.run([os.path.join(HERE, "bin", "check"), prop, "--no-evidence"], env=env, capture_output=True,
+        r = subprocess.run([os.path.join(HERE, "agent_reports", "C10", "check_with_known.sh"), prop, "--no-evidence"], env=env, capture_output=True,
                            text=True)
         buckets = sorted({l.split("bucket=")[1] for l in r.stdout.splitlines() if l.startswith("violation ")})
         status = "caught" if r.returncode == 1 else ("MISSED" if r.returncode == 0 else "HARNESS-ERROR rc=%d" % r.returncode)
